@@ -117,7 +117,10 @@ static int run_api(char ** tok, int n)
 	return 0;
 }
 
-/* ---- mode (b): compiled GETOPT_SWITCH loops ---- */
+/* ---- mode (b): compiled GETOPT_SWITCH loops ----
+ * areas/getopt.py reads the functions loop<k> below to learn each statement's layout (which label
+ * is on which line, counted from the GETOPT_SWITCH line) and hands exactly that layout to the model:
+ * keep GETOPT_SWITCH(ch) and every GETOPT_* label literally in the function body, one label per line. */
 #define LOOP_HEAD							\
 	const char * ch; size_t nev = 0; int stopped = 0;		\
 	for (;;) {							\
@@ -210,6 +213,136 @@ static void loop3(int argc, char ** argv, long stop, size_t cap)
 	LOOP_TAIL
 }
 
+/* Loops 4..9: the option set of loops 0/1 (and of loop 2) in other SOURCE LAYOUTS.  The dispatch
+ * slot of a label is its line offset from the GETOPT_SWITCH line, so these exercise slot 0 (a label
+ * on the GETOPT_SWITCH line itself), slot maxopts-1 (the line directly before GETOPT_DEFAULT),
+ * GETOPT_MISSING_ARG first / in the middle / last / absent, blank lines and multi-line bodies.
+ * The result must not depend on the layout. */
+
+/* loop 4: first label on the GETOPT_SWITCH line, compact (one option per line), last label on the
+ * line directly before GETOPT_DEFAULT, no GETOPT_MISSING_ARG */
+static void loop4(int argc, char ** argv, long stop, size_t cap)
+{
+	LOOP_HEAD
+		GETOPT_SWITCH(ch) { GETOPT_OPT("-b"): lbl('O', "-b", ch); nev++; break;
+		GETOPT_OPT("--bar"): lbl('O', "--bar", ch); nev++; break;
+		GETOPT_OPTARG("-f"): lbl('A', "-f", ch); nev++; break;
+		GETOPT_OPTARG("--foo"): lbl('A', "--foo", ch); nev++; break;
+		GETOPT_DEFAULT: ev1('D', ch); nev++; break;
+		}
+	LOOP_TAIL
+}
+
+/* loop 5: a GETOPT_OPTARG label on the GETOPT_SWITCH line, options in the reverse order,
+ * GETOPT_MISSING_ARG last (directly before GETOPT_DEFAULT) */
+static void loop5(int argc, char ** argv, long stop, size_t cap)
+{
+	LOOP_HEAD
+		GETOPT_SWITCH(ch) { GETOPT_OPTARG("--foo"): lbl('A', "--foo", ch); nev++; break;
+		GETOPT_OPTARG("-f"): lbl('A', "-f", ch); nev++; break;
+		GETOPT_OPT("--bar"): lbl('O', "--bar", ch); nev++; break;
+		GETOPT_OPT("-b"): lbl('O', "-b", ch); nev++; break;
+		GETOPT_MISSING_ARG: ev1('M', ch); nev++; break;
+		GETOPT_DEFAULT: ev1('D', ch); nev++; break;
+		}
+	LOOP_TAIL
+}
+
+/* loop 6: GETOPT_MISSING_ARG itself on the GETOPT_SWITCH line, blank lines before GETOPT_DEFAULT */
+static void loop6(int argc, char ** argv, long stop, size_t cap)
+{
+	LOOP_HEAD
+		GETOPT_SWITCH(ch) { GETOPT_MISSING_ARG: ev1('M', ch); nev++; break;
+		GETOPT_OPT("-b"): lbl('O', "-b", ch); nev++; break;
+		GETOPT_OPTARG("-f"): lbl('A', "-f", ch); nev++; break;
+		GETOPT_OPT("--bar"): lbl('O', "--bar", ch); nev++; break;
+		GETOPT_OPTARG("--foo"): lbl('A', "--foo", ch); nev++; break;
+
+
+		GETOPT_DEFAULT: ev1('D', ch); nev++; break;
+		}
+	LOOP_TAIL
+}
+
+/* loop 7: compact table, GETOPT_MISSING_ARG first (on the line after GETOPT_SWITCH), last option
+ * directly before GETOPT_DEFAULT */
+static void loop7(int argc, char ** argv, long stop, size_t cap)
+{
+	LOOP_HEAD
+		GETOPT_SWITCH(ch) {
+		GETOPT_MISSING_ARG: ev1('M', ch); nev++; break;
+		GETOPT_OPT("--bar"): lbl('O', "--bar", ch); nev++; break;
+		GETOPT_OPT("-b"): lbl('O', "-b", ch); nev++; break;
+		GETOPT_OPTARG("--foo"): lbl('A', "--foo", ch); nev++; break;
+		GETOPT_OPTARG("-f"): lbl('A', "-f", ch); nev++; break;
+		GETOPT_DEFAULT: ev1('D', ch); nev++; break;
+		}
+	LOOP_TAIL
+}
+
+/* loop 8: brace on its own line, labels separated by blank lines and multi-line bodies,
+ * GETOPT_MISSING_ARG in the middle */
+static void loop8(int argc, char ** argv, long stop, size_t cap)
+{
+	LOOP_HEAD
+		GETOPT_SWITCH(ch)
+		{
+
+		GETOPT_OPTARG("-f"):
+			lbl('A', "-f", ch);
+			nev++;
+			break;
+
+		GETOPT_OPT("-b"):
+			lbl('O', "-b", ch);
+			nev++;
+			break;
+		GETOPT_MISSING_ARG:
+			ev1('M', ch);
+			nev++;
+			break;
+
+
+		GETOPT_OPTARG("--foo"):
+			lbl('A', "--foo", ch);
+
+			nev++;
+			break;
+		GETOPT_OPT("--bar"):
+			lbl('O', "--bar", ch);
+			nev++;
+			break;
+
+		GETOPT_DEFAULT:
+			ev1('D', ch);
+			nev++;
+			break;
+		}
+	LOOP_TAIL
+}
+
+/* loop 9: the table of loop 2 (names that are prefixes of one another) with the first label on
+ * the GETOPT_SWITCH line and GETOPT_MISSING_ARG between the options */
+static void loop9(int argc, char ** argv, long stop, size_t cap)
+{
+	LOOP_HEAD
+		GETOPT_SWITCH(ch) { GETOPT_OPT("--fo"): lbl('O', "--fo", ch); nev++; break;
+		GETOPT_OPTARG("--foo"): lbl('A', "--foo", ch); nev++; break;
+		GETOPT_MISSING_ARG: ev1('M', ch); nev++; break;
+		GETOPT_OPT("--foobar"): lbl('O', "--foobar", ch); nev++; break;
+
+		GETOPT_OPTARG("-o"): lbl('A', "-o", ch); nev++; break;
+		GETOPT_OPT("-x"): lbl('O', "-x", ch); nev++; break;
+		GETOPT_DEFAULT: ev1('D', ch); nev++; break;
+		}
+	LOOP_TAIL
+}
+
+static void (* const loops[])(int, char **, long, size_t) = {
+	loop0, loop1, loop2, loop3, loop4, loop5, loop6, loop7, loop8, loop9
+};
+#define NLOOPS ((int)(sizeof(loops) / sizeof(loops[0])))
+
 static int run_sw(char ** tok, int n)
 {
 	int k, argc; long stop; size_t total; char ** argv;
@@ -218,15 +351,10 @@ static int run_sw(char ** tok, int n)
 	stop = strcmp(tok[1], "-") ? atol(tok[1]) : -1;
 	argc = atoi(tok[2]);
 	if (n != 3 + argc) return -1;
+	if (k < 0 || k >= NLOOPS) return -1;
 	argv = mkargv(&tok[3], argc, &total);
 	optreset = 1;
-	switch (k) {
-	case 0: loop0(argc, argv, stop, total + (size_t)argc + 8); break;
-	case 1: loop1(argc, argv, stop, total + (size_t)argc + 8); break;
-	case 2: loop2(argc, argv, stop, total + (size_t)argc + 8); break;
-	case 3: loop3(argc, argv, stop, total + (size_t)argc + 8); break;
-	default: return -1;
-	}
+	loops[k](argc, argv, stop, total + (size_t)argc + 8);
 	return 0;
 }
 
